@@ -1,4 +1,5 @@
 import GrmVerif.Model.Recover
+import GrmVerif.Model.Out
 /-!
 Faithful model of the POST-PROCESSING of `lrpar/src/lib/cpctplus.rs`: what `CPCTPlus::recover` does
 with the success nodes of the search before it reports them:
@@ -12,8 +13,11 @@ with the success nodes of the search before it reports them:
   (contains an `%avoid_insert` Insert, length, content).
 
 The parser table is a parameter (`Grammar`, `Automaton`, the token vector `w`); `Rec.feed` is the
-run of reductions `lr_upto` performs under one lookahead. Panics (`rpr_seqs[0]` on an empty group,
-`unwrap` of a missing goto, stack underflow) and fuel exhaustion are `none`. The deadline
+run of reductions `lr_upto` performs under one lookahead. In `applyRepairs`/`lrUpto`/`rankCnds` panics
+(`rpr_seqs[0]` on an empty group, `unwrap` of a missing goto, stack underflow) and fuel exhaustion are
+both `none`; their refinements `applyRepairsO`/`lrUptoO`/`rankCndsO` (second half of the file) keep the
+two apart (`Out.panic` / `Out.fuelOut`) — these are what `SearchImpl.recoverTail` runs, and
+`Lemmas/RankImplO.lean` shows that forgetting the difference gives back the former. The deadline
 (`finish_by`: a timed-out `rank_cnds` reports no repairs at all) is not modelled. The order in which a
 `HashSet` hands its elements back is an explicit parameter (`hs`). Core Lean only.
 -/
@@ -210,5 +214,92 @@ def postProcess (hs : List Seq → List Seq) (avoid : Nat → Bool) (lexStart : 
   match rankCnds G A w win start cnds with
   | none => none
   | some r => if r.isEmpty then some [] else some (simplify hs avoid lexStart r)
+
+/-! ### the same functions with a PANIC of the real code kept apart from the MODEL's fuel
+
+`feed … FUEL` answers `.crash` where `lr_upto` would panic (`pstack.last().unwrap()` on an empty stack,
+the subtraction `pstack.len() - prod.len()` underflowing, `goto(..).unwrap()` on `None`) and `.fuelOut`
+when more than `FUEL` reductions under one lookahead would be needed — the real loop would still be
+running. `applyOne`/`lrUpto`/`rankCnds` above answer `none` in both cases; here the first is
+`Out.panic`, the second `Out.fuelOut`. Nothing else differs (`Lemmas/RankImplO.lean`:
+`Out.toOption` of each function below is the function above). -/
+
+open _root_.GrmVerif.SearchImpl (Out)
+
+/-- `applyOne` with panic and fuel kept apart -/
+def applyOneO (G : Grammar) (A : Automaton) (w : List Nat) (c : Pos) : PRepair → Out Pos
+  | .insert t =>
+    if c.pos > w.length then .panic
+    else
+      match feed G A t FUEL c.stack with
+      | .shifted s => .ok ⟨s, c.pos⟩
+      | .accept s => .ok ⟨s, c.pos⟩
+      | .error s => .ok ⟨s, c.pos⟩
+      | .crash => .panic
+      | .fuelOut => .fuelOut
+  | .delete _ => .ok ⟨c.stack, c.pos + 1⟩
+  | .shift _ =>
+    if c.pos > w.length then .ok c
+    else
+      match feed G A (nextTok G w c.pos) FUEL c.stack with
+      | .shifted s => .ok ⟨s, c.pos + 1⟩
+      | .accept s => .ok ⟨s, c.pos⟩
+      | .error s => .ok ⟨s, c.pos⟩
+      | .crash => .panic
+      | .fuelOut => .fuelOut
+
+/-- `apply_repairs` -/
+def applyRepairsO (G : Grammar) (A : Automaton) (w : List Nat) : Pos → Seq → Out Pos
+  | c, [] => .ok c
+  | c, r :: rs =>
+    match applyOneO G A w c r with
+    | .ok c' => applyRepairsO G A w c' rs
+    | .panic => .panic
+    | .fuelOut => .fuelOut
+
+/-- `lr_upto(None, laidx, end_laidx, pstack, None, None)`; the loop fuel running out is `.fuelOut` -/
+def lrUptoO (G : Grammar) (A : Automaton) (w : List Nat) (endIdx : Nat) : Nat → Pos → Out Pos
+  | 0, _ => .fuelOut
+  | fuel + 1, c =>
+    if c.pos == endIdx || c.pos > w.length then .ok c
+    else
+      match feed G A (nextTok G w c.pos) FUEL c.stack with
+      | .shifted s => lrUptoO G A w endIdx fuel ⟨s, c.pos + 1⟩
+      | .accept s => .ok ⟨s, c.pos⟩
+      | .error s => .ok ⟨s, c.pos⟩
+      | .crash => .panic
+      | .fuelOut => .fuelOut
+
+def reachO (G : Grammar) (A : Automaton) (w : List Nat) (win : Nat) (start : Pos) (seq : Seq) : Out Nat :=
+  match applyRepairsO G A w start seq with
+  | .ok c => (lrUptoO G A w (start.pos + win) (w.length + 2) c).map (·.pos)
+  | .panic => .panic
+  | .fuelOut => .fuelOut
+
+/-- `rank_cnds` looks at `rpr_seqs[0]` only: an empty group is an index-out-of-range PANIC -/
+def groupReachO (G : Grammar) (A : Automaton) (w : List Nat) (win : Nat) (start : Pos) : List Seq → Out Nat
+  | [] => .panic
+  | s :: _ => reachO G A w win start s
+
+/-- the first loop of `rank_cnds`, group by group in order: the first group that panics (or exhausts
+the model's fuel) decides -/
+def scoreCndsO (G : Grammar) (A : Automaton) (w : List Nat) (win : Nat) (start : Pos) :
+    List (List Seq) → Out (List (Nat × List Seq))
+  | [] => .ok []
+  | g :: gs =>
+    match groupReachO G A w win start g with
+    | .panic => .panic
+    | .fuelOut => .fuelOut
+    | .ok d =>
+      match scoreCndsO G A w win start gs with
+      | .panic => .panic
+      | .fuelOut => .fuelOut
+      | .ok r => .ok ((d, g) :: r)
+
+/-- `rank_cnds` -/
+def rankCndsO (G : Grammar) (A : Automaton) (w : List Nat) (win : Nat) (start : Pos)
+    (cnds : List (List Seq)) : Out (List Seq) :=
+  (scoreCndsO G A w win start cnds).map
+    (fun scored => (scored.filter (fun p => p.1 == furthest scored)).flatMap (·.2))
 
 end GrmVerif.RankImpl
